@@ -239,7 +239,7 @@ func (e *Exec) realDiv(x, y *Term, instr ssa.Instruction) *Term {
 	}
 	zero := e.B.RealConst(new(big.Rat))
 	// obligation: divisor is non-zero on this path
-	r := e.S.CheckWith(e.B.Eq(y, zero))
+	r := e.check(e.B.Eq(y, zero))
 	if r != Unsat {
 		e.recordViolation("divzero", "division", "real-mode divisor may be zero at "+e.posOf(instr), e.B.Eq(y, zero))
 		e.assume(e.B.Not(e.B.Eq(y, zero)))
